@@ -115,6 +115,54 @@ class ClassInfo:
         return [k for k in self.class_assigns]
 
 
+class _Desugar(ast.NodeTransformer):
+    """`return next((E for T in IT if C), D)` and `x = next((E for T in IT if C), D)` are rewritten into the first-match
+    loop they abbreviate (for T in IT: if C: return E / x = E; break), which every engine already understands."""
+
+    @staticmethod
+    def _match(v):
+        if isinstance(v, ast.Call) and isinstance(v.func, ast.Name) and v.func.id == 'next' and len(v.args) == 2 and not v.keywords \
+                and isinstance(v.args[0], ast.GeneratorExp) and len(v.args[0].generators) == 1 \
+                and not v.args[0].generators[0].is_async:
+            g = v.args[0].generators[0]
+            test = None
+            if g.ifs:
+                test = g.ifs[0] if len(g.ifs) == 1 else ast.BoolOp(op=ast.And(), values=list(g.ifs))
+            return g.target, g.iter, test, v.args[0].elt, v.args[1]
+        return None
+
+    def visit_Return(self, node):
+        m = self._match(node.value)
+        if m is None:
+            return node
+        target, it, test, elt, default = m
+        hit = ast.Return(value=elt)
+        body = [ast.If(test=test, body=[hit], orelse=[])] if test is not None else [hit]
+        loop = ast.For(target=target, iter=it, body=body, orelse=[], type_comment=None)
+        out = [loop, ast.Return(value=default)]
+        for n in out:
+            for sub in ast.walk(n):
+                if not hasattr(sub, 'lineno'):
+                    ast.copy_location(sub, node)
+        return out
+
+    def visit_Assign(self, node):
+        m = self._match(node.value)
+        if m is None or len(node.targets) != 1 or not isinstance(node.targets[0], ast.Name):
+            return node
+        target, it, test, elt, default = m
+        name = node.targets[0].id
+        hit = [ast.Assign(targets=[ast.Name(id=name, ctx=ast.Store())], value=elt, type_comment=None), ast.Break()]
+        body = [ast.If(test=test, body=hit, orelse=[])] if test is not None else hit
+        out = [ast.Assign(targets=[ast.Name(id=name, ctx=ast.Store())], value=default, type_comment=None),
+               ast.For(target=target, iter=it, body=body, orelse=[], type_comment=None)]
+        for n in out:
+            for sub in ast.walk(n):
+                if not hasattr(sub, 'lineno'):
+                    ast.copy_location(sub, node)
+        return out
+
+
 class Repo:
     def __init__(self, root, overrides=None):
         self.root = os.path.abspath(root)
@@ -149,6 +197,9 @@ class Repo:
                     tree = ast.parse(src, filename=path)
                 except SyntaxError as e:
                     raise AnalysisError('syntax error in %s: %s' % (rel, e))
+                if 'next(' in src:
+                    tree = _Desugar().visit(tree)
+                    ast.fix_missing_locations(tree)
                 self.modules[name] = ModuleInfo(name, path, rel, tree, src)
 
     def _resolve(self):
